@@ -77,7 +77,7 @@ def run_engine(raw: dict, responder: Callable | None = None, *, phases=None, wor
                                        suppress_health_check=list(hypothesis.HealthCheck), **kw)
         gen = GenerationConfig(modes=modes) if modes is not None else GenerationConfig()
         exe = ExecutionConfig(
-            phases=[PhaseName(p) if not isinstance(p, PhaseName) else p for p in phases] if phases is not None else PhaseName.defaults(),
+            phases=[PhaseName.from_str(p) if not isinstance(p, PhaseName) else p for p in phases] if phases is not None else PhaseName.defaults(),
             hypothesis_settings=settings,
             generation=gen,
             max_failures=max_failures,
